@@ -359,6 +359,7 @@ MANIFEST = {
             "alpha+(v+,v-) on both branches; detonationVAndT satisfies the junction relation with "
             "alpha+=alphaN; the template ODE is the similarity-variable system in enthalpy form; the "
             "shooting residual vanishes whenever energy and momentum are conserved across the shock "
-            "front. (_findTm's energy-flux identity is checked on concrete/folded points only.)",
+            "front. (_findTm's energy-flux identity is checked on concrete/folded points only.)"
+            " template.findMatching (semi-concrete EOS, symbolic vw): v- = min(vw, c_b), bracket [0, min(cs^2/vw, vw)] cut at the sign change of w+ for that v-, None only without a sign change, T+ = Tn w+^(1/mu).",
     "note": "Agreement of converged numbers of the two solvers is numerical and outside.",
 }
